@@ -145,6 +145,12 @@ def build(case, name):
             cls, oo = plain_class(name, (base,), case["own"], how)   # metaclass is inherited
             objs.update(oo)
             return cls, objs
+        if inh == "dcboth":
+            # a dataset class derived from a dataset class, itself decorated
+            base = datasetclass(base)
+            cls, oo = plain_class(name, (base,), case["own"], how)
+            objs.update(oo)
+            return datasetclass(cls), objs
         cls, oo = plain_class(name, (base,), case["own"], how)
     else:
         cls, oo = plain_class(name, (), case["own"], how)
@@ -252,8 +258,11 @@ def run(case):
                 # an un-annotated member, one inherited from an undecorated base, or one added by an undecorated
                 # subclass is an ordinary class attribute, shared by Python itself
                 dcsub = case.get("inherit") == "dcsub" and case["base"]
-                decorated = case["base"] if dcsub else case["own"]
-                hidden = {n for n, _, _ in case["own"]} if dcsub else set()
+                both = case.get("inherit") == "dcboth" and case["base"]
+                hidden = {n for n, _, _ in case["own"]} if (dcsub or both) else set()
+                decorated = case["base"] if dcsub else (list(case["own"]) + [m for m in case["base"] if m[0] not in hidden] if both else case["own"])
+                if both:
+                    hidden = set()
                 consts = {n: sp["v"] for n, sp, ann in decorated if sp["k"] == "const" and ann and n not in hidden}
                 a = C(dec(case["o" + j]))
                 for n in consts:
@@ -482,7 +491,7 @@ def corpus():
     # inherited members: plain base class, override, subclass of a dataset class
     base = [("a", opt("A.X")), ("k", const(5)), ("q", opt("Q", "dflt", True))]
     own = [("b", opt("B")), ("k", const(6), False)]
-    for inh in ("plain", "dcsub"):
+    for inh in ("plain", "dcsub", "dcboth"):
         for how in ("type", "exec"):
             cs += [case_(own, {"A": {"X": 2}, "B": 3}, {"A": {"X": 2, "Y": 9}, "B": 3}, base=base, build=how, inherit=inh),
                    case_(own, {"A": {"X": 2}, "B": 3}, {"A": {"X": 5}, "B": 3}, base=base, build=how, inherit=inh)]
@@ -635,7 +644,7 @@ def gen_case(rng, n):
     base, own = members[:nb], members[nb:]
     if base and rng.random() < 0.4:        # an override of an inherited member
         own.append((base[0][0], gen_member(rng), rng.random() < 0.5))
-    c = case_(own, {}, {}, base=base, build=build, inherit=rng.choice(["plain", "dcsub"]), name="C%d" % (n % 7))
+    c = case_(own, {}, {}, base=base, build=build, inherit=rng.choice(["plain", "dcsub", "dcboth"]), name="C%d" % (n % 7))
     keys = class_option_keys(c)
     o1 = gen_options(rng, keys)
     o2, kind = perturb(rng, o1, keys)
